@@ -95,18 +95,6 @@ theorem mem_setxPairs {s : St} {st f : Name} {k : Bytes} {id : Id} :
   · rintro ⟨l, hl, hid⟩
     exact ⟨(k, .ids l), hl, List.mem_map.2 ⟨id, hid, rfl⟩⟩
 
-theorem mem_nullIds {s : St} {st f : Name} {id : Id} :
-    id ∈ nullIds s st f ↔ ∃ e, (id, e) ∈ s.ents st ∧ e.fields f = .nil := by
-  unfold nullIds
-  rw [List.mem_filterMap]
-  constructor
-  · rintro ⟨p, hp, h⟩
-    split at h
-    · next hn => cases h; exact ⟨p.2, hp, hn⟩
-    · cases h
-  · rintro ⟨e, he, hn⟩
-    exact ⟨(id, e), he, by simp [hn]⟩
-
 theorem mem_nullOrEmptyIds {s : St} {st f : Name} {id : Id} :
     id ∈ nullOrEmptyIds s st f ↔ ∃ e, (id, e) ∈ s.ents st ∧ (e.fields f).bytes = [] := by
   unfold nullOrEmptyIds
@@ -160,10 +148,9 @@ theorem unique_complete {s : St} (hwf : s.WF) (st f : Name) (n : Bool) :
       have hsub : ∀ r ∈ (uqStep2 st f n false s vi.2).2, r ∈ uqRep st f n s := fun r hr =>
         List.mem_append_right _ (List.mem_flatMap.2 ⟨vi.2, mem_ids.2 ⟨e, he⟩, hr⟩)
       have hT : s.evalT st vi.2 f = .str vi.1 := by rw [evalT_of_mem hwf he]; exact hf
-      have hq : ¬(quirkEmptyIsNil = true ∧ vi.1 = []) := fun c => hne c.2
       cases hr : readU s st f vi.1 with
       | none =>
-        exact ⟨⟨st, f, .uqMissing vi.1 vi.2, false⟩, hsub _ (by simp [uqStep2, hT, hr, hq]), rfl⟩
+        exact ⟨⟨st, f, .uqMissing vi.1 vi.2, false⟩, hsub _ (by simp [uqStep2, hT, hr, hne]), rfl⟩
       | some x =>
         have hx : x ≠ vi.2 := by
           intro e'
@@ -172,25 +159,24 @@ theorem unique_complete {s : St} (hwf : s.WF) (st f : Name) (n : Bool) :
           rw [if_neg hne] at hr
           have := get_some_mem hr
           rw [e'] at this; exact this
-        exact ⟨⟨st, f, .uqDup vi.1 x vi.2, false⟩, hsub _ (by simp [uqStep2, hT, hr, hx, hq]), rfl⟩
+        exact ⟨⟨st, f, .uqDup vi.1 x vi.2, false⟩, hsub _ (by simp [uqStep2, hT, hr, hx, hne]), rfl⟩
   · -- null in a non-nullable index
     cases n with
     | true => simp at hd
     | false =>
       simp only [Bool.false_eq_true, if_false] at hd
       obtain ⟨id, hid, rfl⟩ := List.mem_map.1 hd
-      obtain ⟨e, he, hn⟩ := mem_nullIds.1 hid
-      have hT : s.evalT st id f = .nil := by rw [evalT_of_mem hwf he]; exact hn
-      exact ⟨⟨st, f, .uqNull id, false⟩,
-        List.mem_append_right _ (List.mem_flatMap.2 ⟨id, mem_ids.2 ⟨e, he⟩, by simp [uqStep2, hT]⟩), rfl⟩
+      obtain ⟨e, he, hn⟩ := mem_nullOrEmptyIds.1 hid
+      have hT : s.evalT st id f = e.fields f := evalT_of_mem hwf he f
+      refine ⟨⟨st, f, .uqNull id, false⟩,
+        List.mem_append_right _ (List.mem_flatMap.2 ⟨id, mem_ids.2 ⟨e, he⟩, ?_⟩), rfl⟩
+      cases hf : e.fields f with
+      | nil => simp [uqStep2, hT, hf]
+      | str v =>
+        have hv : v = [] := by rw [hf] at hn; exact hn
+        simp [uqStep2, hT, hf, hv]
 
-/-- no entity holds the empty string in the indexed field (the CRUD path accepts it for a nullable
-    unique index; the checker then reports it as missing — see `Properties/C09.lean`) -/
-def NoEmptyStr (s : St) (st f : Name) : Prop := ∀ p ∈ s.ents st, p.2.fields f ≠ .str []
-
-instance (s : St) (st f : Name) : Decidable (NoEmptyStr s st f) := by unfold NoEmptyStr; infer_instance
-
-theorem unique_sound {s : St} (hwf : s.WF) (st f : Name) (n : Bool) (hne : NoEmptyStr s st f) :
+theorem unique_sound {s : St} (hwf : s.WF) (st f : Name) (n : Bool) :
     ∀ r ∈ uqRep st f n s, r.about ∈ uniqueDiscs s st f n := by
   intro r hr
   unfold uqRep at hr
@@ -234,11 +220,21 @@ theorem unique_sound {s : St} (hwf : s.WF) (st f : Name) (n : Bool) (hne : NoEmp
         subst hr
         apply List.mem_append_right
         simp only [Bool.false_eq_true, if_false]
-        exact List.mem_map.2 ⟨id, mem_nullIds.2 ⟨e, he, hf⟩, rfl⟩
+        exact List.mem_map.2 ⟨id, mem_nullOrEmptyIds.2 ⟨e, he, by rw [hf]; rfl⟩, rfl⟩
     | str v =>
-      have hv : v ≠ [] := fun e' => hne (id, e) he (by rw [hf, e'])
-      have hq : ¬(quirkEmptyIsNil = true ∧ v = []) := fun c => hv c.2
-      simp only [hf, hq, if_false] at hr
+      simp only [hf] at hr
+      by_cases hv : v = []
+      · -- the empty string is skipped like nil
+        simp only [hv, if_true] at hr
+        cases n with
+        | true => simp at hr
+        | false =>
+          simp only [Bool.false_eq_true, if_false, List.mem_singleton] at hr
+          subst hr
+          apply List.mem_append_right
+          simp only [Bool.false_eq_true, if_false]
+          exact List.mem_map.2 ⟨id, mem_nullOrEmptyIds.2 ⟨e, he, by rw [hf, hv]; rfl⟩, rfl⟩
+      simp only [hv, if_false] at hr
       have himg : (v, id) ∈ scalarImage s st f := mem_scalarImage.2 ⟨e, he, hf, hv⟩
       apply List.mem_append_left; apply List.mem_append_right
       have key : r.about = .uqMissing st f v id → (v, id) ∉ s.uniq st f →
@@ -661,18 +657,6 @@ theorem link_sound {s : St} (hwf : s.WF) (S : Schema) (lc : LinkColl) :
 
 /-! ### the whole schema -/
 
-/-- hypothesis of soundness: no entity holds the empty string in a field with a unique index -/
-def Constraint.NoEmpty (s : St) : Constraint → Prop
-  | .unique st f _ => NoEmptyStr s st f
-  | _ => True
-
-instance (s : St) (c : Constraint) : Decidable (c.NoEmpty s) := by
-  cases c <;> unfold Constraint.NoEmpty <;> infer_instance
-
-def NoEmptyUnique (S : Schema) (s : St) : Prop := ∀ sd ∈ S, ∀ c ∈ sd.constraints, c.NoEmpty s
-
-instance (S : Schema) (s : St) : Decidable (NoEmptyUnique S s) := by unfold NoEmptyUnique; infer_instance
-
 theorem constraint_complete {s : St} (hwf : s.WF) (c : Constraint) :
     ∀ d ∈ c.discs s, ∃ r ∈ c.rep s, r.about = d := by
   cases c with
@@ -682,10 +666,10 @@ theorem constraint_complete {s : St} (hwf : s.WF) (c : Constraint) :
   | fkCons st f n linked => exact fkCons_complete hwf st f n linked
   | noop => intro d hd; cases hd
 
-theorem constraint_sound {s : St} (hwf : s.WF) (c : Constraint) (hne : c.NoEmpty s) :
+theorem constraint_sound {s : St} (hwf : s.WF) (c : Constraint) :
     ∀ r ∈ c.rep s, r.about ∈ c.discs s := by
   cases c with
-  | unique st f n => exact unique_sound hwf st f n hne
+  | unique st f n => exact unique_sound hwf st f n
   | setIdx st f => exact set_sound hwf st f
   | fkIndex st f n fkSt fkF => exact fkIndex_sound hwf st f n fkSt fkF
   | fkCons st f n linked => exact fkCons_sound hwf st f n linked
@@ -705,7 +689,7 @@ theorem checkReports_complete {s : St} (hwf : s.WF) (S : Schema) :
     obtain ⟨r, hr, hab⟩ := constraint_complete hwf c d hd
     exact ⟨r, List.mem_flatMap.2 ⟨sd, hsd, List.mem_append_right _ (List.mem_flatMap.2 ⟨c, hc, hr⟩)⟩, hab⟩
 
-theorem checkReports_sound {s : St} (hwf : s.WF) (S : Schema) (hne : NoEmptyUnique S s) :
+theorem checkReports_sound {s : St} (hwf : s.WF) (S : Schema) :
     ∀ r ∈ checkReports S s, r.about ∈ inconsistencies S s := by
   intro r hr
   unfold checkReports at hr
@@ -718,6 +702,6 @@ theorem checkReports_sound {s : St} (hwf : s.WF) (S : Schema) (hne : NoEmptyUniq
   · obtain ⟨lc, hlc, hr⟩ := List.mem_flatMap.1 hr
     exact List.mem_append_left _ (List.mem_flatMap.2 ⟨lc, hlc, link_sound hwf S lc r hr⟩)
   · obtain ⟨c, hc, hr⟩ := List.mem_flatMap.1 hr
-    exact List.mem_append_right _ (List.mem_flatMap.2 ⟨c, hc, constraint_sound hwf c (hne sd hsd c hc) r hr⟩)
+    exact List.mem_append_right _ (List.mem_flatMap.2 ⟨c, hc, constraint_sound hwf c r hr⟩)
 
 end StorageModel.C09
